@@ -8,11 +8,13 @@ package interf
 import (
 	"bytes"
 	"fmt"
+	"io"
 	"net"
 	"net/http"
 	"net/http/httptest"
 	"os"
 	"path/filepath"
+	"runtime/debug"
 	"strings"
 	"time"
 
@@ -81,6 +83,33 @@ func (w *hworld) accept(remote string) int {
 	return idx
 }
 
+// acceptVerified registers a new connection whose session already has its keys (secret derived from seed).
+func (w *hworld) acceptVerified(remote string, seed byte) int {
+	c := w.accept(remote)
+	var secret [32]byte
+	copy(secret[:], pat(32, seed))
+	w.extraSecrets = append(w.extraSecrets, secret)
+	w.extraIdx = append(w.extraIdx, c)
+	cs, _ := hccrypto.NewSecureSessionFromSharedKey(secret)
+	sess := w.ctx.GetSessionForConnection(w.conns[c])
+	sess.SetCryptographer(cs)
+	sess.Decrypter()
+	sess.Encrypter()
+	return c
+}
+
+func (w *hworld) secretOf(conn int) []byte {
+	if conn < 2 {
+		return w.secret[conn][:]
+	}
+	for i, c := range w.extraIdx {
+		if c == conn {
+			return w.extraSecrets[i][:]
+		}
+	}
+	return make([]byte, 32)
+}
+
 func (w *hworld) post(conn int, path string, body []byte) (int, []byte) {
 	req := httptest.NewRequest("POST", path, bytes.NewReader(body))
 	req.RemoteAddr = w.conns[conn].remote
@@ -115,15 +144,19 @@ func (w *hworld) verify(remote, seed, name string, id refctl.Identity) string {
 }
 
 type hworld struct {
-	dir    string
-	mux    *http.ServeMux
-	ctx    hap.Context
-	sw     *accessory.Switch
-	bulb   *accessory.ColoredLightbulb
-	conns  []*hconn
-	hc     []*hap.Connection
-	secret [2][32]byte
-	remote map[string]int // application callback counters
+	dir          string
+	mux          *http.ServeMux
+	ctx          hap.Context
+	sw           *accessory.Switch
+	bulb         *accessory.ColoredLightbulb
+	conns        []*hconn
+	hc           []*hap.Connection
+	secret       [2][32]byte
+	remote       map[string]int // application callback counters
+	extraSecrets [][32]byte
+	extraIdx     []int
+	sess         hccrypto.Cryptographer // a bare session for the session-level pair
+	sessIn       []byte
 }
 
 func newHWorld(scratch string) (*hworld, error) {
@@ -183,7 +216,7 @@ func (w *hworld) do(conn int, method, target, body string) string {
 
 // events decrypts what was written to a connection (EVENT messages) and returns the bodies in order.
 func (w *hworld) events(conn int) string {
-	a2c, _ := refctl.SessionKeys(w.secret[conn][:])
+	a2c, _ := refctl.SessionKeys(w.secretOf(conn))
 	var ctr uint64
 	pts, err := refctl.OpenFrames(a2c, &ctr, w.conns[conn].wire)
 	if err != nil {
@@ -253,6 +286,37 @@ func hpairs() []hpair {
 			func(w *hworld) string { w.sw.Switch.On.SetValue(true); return "set" },
 			func(w *hworld) string { return w.do(1, "PUT", "/characteristics", w.put("brightness", "value", "42")) },
 			func(w *hworld) string { return state(w) + " events(c0)=" + w.events(0) + " events(c1)=" + w.events(1) }},
+		{"Encrypt and Decrypt on ONE secure session at the same time (an event is sealed while a request is opened)", "C06 C05 C08",
+			func(w *hworld) {
+				var secret [32]byte
+				copy(secret[:], pat(32, 77))
+				w.sess, _ = hccrypto.NewSecureSessionFromSharedKey(secret)
+				_, c2a := refctl.SessionKeys(secret[:])
+				var ctr uint64
+				w.sessIn = refctl.Frames(c2a, &ctr, wpayload(5, 1100))
+			},
+			func(w *hworld) string {
+				r, err := w.sess.Encrypt(bytes.NewReader(wpayload(6, 1100)))
+				if err != nil {
+					return "encrypt: " + err.Error()
+				}
+				ct, _ := io.ReadAll(r)
+				var secret [32]byte
+				copy(secret[:], pat(32, 77))
+				a2c, _ := refctl.SessionKeys(secret[:])
+				var ctr uint64
+				pts, err := refctl.OpenFrames(a2c, &ctr, ct)
+				return fmt.Sprint(err, bytes.Equal(bytes.Join(pts, nil), wpayload(6, 1100)))
+			},
+			func(w *hworld) string {
+				r, err := w.sess.Decrypt(bytes.NewReader(w.sessIn))
+				if err != nil {
+					return "decrypt: " + err.Error()
+				}
+				pt, _ := io.ReadAll(r)
+				return fmt.Sprint(bytes.Equal(pt, wpayload(5, 1100)))
+			},
+			func(w *hworld) string { return "" }},
 		{"two writers on one encrypted connection", "C08", nil,
 			func(w *hworld) string { _, err := w.hc[0].Write(wpayload(1, 1500)); return fmt.Sprint(err) },
 			func(w *hworld) string { _, err := w.hc[0].Write(wpayload(2, 40)); return fmt.Sprint(err) },
@@ -294,6 +358,35 @@ func hpairs() []hpair {
 			func(w *hworld) string {
 				return w.do(1, "GET", "/characteristics?id="+w.id("brightness")+","+w.id("on"), "")
 			}, state},
+		{"an administrator removes a pairing while the removed controller verifies; afterwards it must be refused", "C01 C03 C18", nil,
+			func(w *hworld) string {
+				body := refctl.TLVEncode(refctl.T(refctl.TagState, []byte{1}), refctl.T(refctl.TagMethod, []byte{4}), refctl.T(refctl.TagIdentifier, []byte(hidL.ID)))
+				st, _ := w.post(0, "/pairings", body)
+				return fmt.Sprint(st)
+			},
+			func(w *hworld) string {
+				w.verify("10.0.0.31:50031", "hv-l", hidL.ID, hidL) // succeeds or not, depending on the order: both are fine
+				return "-"
+			},
+			func(w *hworld) string { return "later attempt: " + w.verify("10.0.0.32:50032", "hv-l2", hidL.ID, hidL) }},
+		{"a change is fanned out to five subscribed connections while one of them closes", "C10",
+			func(w *hworld) {
+				for i := 0; i < 3; i++ {
+					w.acceptVerified(fmt.Sprintf("10.0.0.%d:5100%d", 40+i, i), byte(60+i))
+				}
+				for c := 0; c < 5; c++ {
+					w.do(c, "PUT", "/characteristics", w.put("on", "ev", "true"))
+				}
+			},
+			func(w *hworld) string { w.sw.Switch.On.SetValue(true); return "set" },
+			func(w *hworld) string { w.hc[1].Close(); return "closed" },
+			func(w *hworld) string {
+				var out []string
+				for _, c := range []int{0, 2, 3, 4} {
+					out = append(out, fmt.Sprintf("c%d: %s", c, w.events(c)))
+				}
+				return strings.Join(out, " ; ")
+			}},
 		{"a new, unverified connection asks for the attribute database while a verified one is served", "C01 C03", nil,
 			func(w *hworld) string { return h([]byte(w.do(0, "GET", "/accessories", ""))) },
 			func(w *hworld) string {
@@ -386,7 +479,7 @@ func exploreHPair(scratch string, hp hpair, bound int, rep *Report, deadline tim
 			return func() {
 				defer func() {
 					if x := recover(); x != nil {
-						*p = x
+						*p = fmt.Sprintf("%v at %s", x, panicSite())
 					}
 				}()
 				*res = f(w)
@@ -485,4 +578,21 @@ func exploreHPairPrefix(scratch string, hp hpair, cas Case, rep *Report, done *b
 		rep.Violations = append(rep.Violations, Violation{"interference/handlers-differ", fmt.Sprintf("%s: interleaved %q; sequential %q", hp.name, trunc(got), trunc(refAB)), cas})
 	}
 	*done = true
+}
+
+// panicSite names the hc frames of the current (panicking) goroutine's stack.
+func panicSite() string {
+	var out []string
+	for _, l := range strings.Split(string(debug.Stack()), "\n") {
+		if strings.Contains(l, ".go:") && !strings.Contains(l, "/runtime/") && !strings.Contains(l, "/src/") {
+			f := strings.Fields(strings.TrimSpace(l))
+			if len(f) > 0 {
+				out = append(out, filepath.Base(filepath.Dir(f[0]))+"/"+filepath.Base(f[0]))
+			}
+		}
+		if len(out) >= 6 {
+			break
+		}
+	}
+	return strings.Join(out, " < ")
 }
